@@ -32,7 +32,7 @@
    last ending one or two bytes (the line end) before the returned offset. *)
 From Sipsp Require Import Harness Framing Resume SafeMore SafeMsg Layout FLineConv TrimSpec SigCoherent LowerBound.
 From Sipsp Require Import Tables.
-From Sipsp Require Import CSeqNest NameAddrNest.
+From Sipsp Require Import CSeqNest NameAddrNest NameAddrTag.
 
 Theorem C05_body_and_raw_message : forall m h e,
   pf_end (m_body (finished m h e)) = h + (e - h) /\
@@ -169,6 +169,11 @@ Theorem C05_nameaddr_fields_nest : forall h buf offs s o e s', fb_fed h buf offs
   (pl (fb_uri s') = 0 \/ (po (fb_v s') <= po (fb_uri s') /\ pf_end (fb_uri s') <= pf_end (fb_v s'))) /\
   (pl (fb_params s') = 0 \/ (po (fb_v s') <= po (fb_params s') /\ pf_end (fb_params s') <= pf_end (fb_v s'))).
 Proof. exact nameaddr_fields_nest. Qed.
+(* ... and the tag lies inside the parameter span *)
+Theorem C05_nameaddr_tag_inside_params : forall h buf offs s o e s', fb_fed h buf offs s -> parse_nameaddr h buf offs s = Done o e s' ->
+  e = EOk \/ e = EMoreValues ->
+  pl (fb_tag s') = 0 \/ (po (fb_params s') <= po (fb_tag s') /\ pf_end (fb_tag s') <= pf_end (fb_params s')).
+Proof. exact nameaddr_tag_nest. Qed.
 Theorem C05_nameaddr_schedules_mean : forall h buf' o s', fb_fed h buf' o s' <->
   (s' = pfrom0 /\ o <= nnat (length buf')) \/
   exists buf offs s, fb_fed h buf offs s /\ parse_nameaddr h buf offs s = Done o EMore s' /\
@@ -183,7 +188,7 @@ Example C05_nest_example :
   let b1 := [66;111;98;32;60;115;105] in
   let b2 := [66;111;98;32;60;115;105;112;58;98;62;59;116;97;103;61;120;13;10;120] in
   (exists o1 s1, parse_nameaddr HdrFrom b1 0 pfrom0 = Done o1 EMore s1 /\ fb_fed HdrFrom b2 o1 s1 /\
-     exists o2 s2, parse_nameaddr HdrFrom b2 o1 s1 = Done o2 EOk s2 /\ fb_name s2 = mkpf 0 4 /\ fb_uri s2 = mkpf 5 5 /\ fb_v s2 = mkpf 0 17) /\
+     exists o2 s2, parse_nameaddr HdrFrom b2 o1 s1 = Done o2 EOk s2 /\ fb_name s2 = mkpf 0 4 /\ fb_uri s2 = mkpf 5 5 /\ fb_v s2 = mkpf 0 17 /\ fb_params s2 = mkpf 12 5 /\ fb_tag s2 = mkpf 16 1) /\
   (exists o1 s1, parse_cseq [49;50;32;73] 0 cseq0 = Done o1 EMore s1 /\ cs_fed o1 s1 /\
      exists o2 s2, parse_cseq [49;50;32;73;78;86;73;84;69;13;10;120] o1 s1 = Done o2 EOk s2 /\ cs_cseq s2 = mkpf 0 2 /\ cs_method s2 = mkpf 3 6).
 Proof.
@@ -198,6 +203,7 @@ Qed.
 Print Assumptions C05_message.
 Print Assumptions C05_cseq_fields_nest.
 Print Assumptions C05_nameaddr_fields_nest.
+Print Assumptions C05_nameaddr_tag_inside_params.
 Print Assumptions C05_message_every_schedule.
 Print Assumptions C05_stored_values_trimmed.
 Print Assumptions C05_values_after_names.
